@@ -199,7 +199,10 @@ PLACE_FILE = {"second_root": ("root2", "cb/src/b.rs"), "third_root": ("root3", "
               "dir_tests": ("root1", "cb/src/tests/b.rs"), "mod_rs": ("root1", "cb/src/inner/mod.rs"), "main_rs": ("root1", "cb/src/main.rs"),
               "build_rs": ("root1", "cb/src/build.rs"), "space_name": ("root1", "cb/src/b file.rs"), "dotted_name": ("root1", "cb/src/types.v2.rs"),
               "nonascii_dir": ("root1", "cb/src/mod\u00e8les/b.rs"), "upper_dir": ("root1", "cb/src/SRC_Types/b.rs"), "no_src": ("root1", "cb/b.rs"),
-              "symlink_file": ("root1", "cb/src/b.rs")}
+              "symlink_file": ("root1", "cb/src/b.rs"),
+              "sibling_prefix_root": ("root1-types", "cb/src/b.rs"), "prefix_crate_dirs": ("root1", "ca-types/src/b.rs")}
+# directory arguments other than the top-level directories of the tree
+PLACE_ROOTS = {"prefix_crate_dirs": ["root1/ca", "root1/ca-types", "root1/cc"]}
 
 
 def places(chk):
@@ -231,7 +234,7 @@ def places(chk):
             files[f"{root}/{rel}"] = real
         else:
             cli.make_tree(d, files)
-        roots = sorted({f.split("/")[0] for f in files})
+        roots = PLACE_ROOTS.get(c["place"]) or sorted({f.split("/")[0] for f in files})
         out = os.path.join(d, "out")
         os.makedirs(out)
         dest = ["-o", os.path.join(out, "out." + common.EXT[c["lang"]])] if c["mode"] == "single" else ["-d", out]
